@@ -30,6 +30,11 @@
 
 using namespace vf;
 
+extern "C" {
+extern pthread_mutex_t trackstate_accessories_mutex, trackstate_peripherals_mutex, trackstate_segments_mutex, trackstate_reversers_mutex,
+    trackstate_trains_mutex, trackstate_boosters_mutex, trackstate_track_outputs_mutex;
+}
+
 namespace {
 
 struct Obs { uint64_t ts, te; std::string key, line; };
@@ -41,6 +46,18 @@ struct Plan {
 	ref::Bytes pauses;
 	int *done;
 	std::string violation;
+};
+
+// A prober is a reader that the scheduler runs exactly at every release of one track-state mutex by another thread
+// (vf_wait_release): if an update of an entity is split over two critical sections, the half-updated entity is visible
+// precisely there. Scheduled flavour only.
+struct Prober {
+	const void *lock = nullptr;
+	std::string lock_name;
+	std::vector<Watch> targets;
+	std::vector<Obs> obs;
+	ref::Bytes picks;
+	size_t max_obs = 120;
 };
 
 std::string chomp(const std::string &s) { return !s.empty() && s.back() == '\n' ? s.substr(0, s.size() - 1) : s; }
@@ -72,6 +89,18 @@ void watch_call(const Watch &w, Obs &o) {
 	o.line = chomp(os.str());
 }
 
+void *prober_main(void *p) {
+	Prober *pr = (Prober *) p;
+	size_t k = 0;
+	while (pr->obs.size() < pr->max_obs && vf_wait_release(pr->lock) == 0) {
+		const Watch &w = pr->targets[pr->picks[k++ % pr->picks.size()] % pr->targets.size()];
+		Obs o;
+		watch_call(w, o);
+		if (!o.key.empty()) pr->obs.push_back(o);
+	}
+	return nullptr;
+}
+
 void *thread_main(void *p) {
 	Plan *pl = (Plan *) p;
 	size_t k = 0;
@@ -84,7 +113,9 @@ void *thread_main(void *p) {
 		Obs o;
 		watch_call(w, o);
 		if (!o.key.empty()) pl->obs.push_back(o);
-		if (!pl->pauses.empty()) { uint8_t d = pl->pauses[k++ % pl->pauses.size()]; vf_usleep((unsigned) (1 + d % 40) * 300); }
+		// half of the time the next getter follows at once: CPU time costs nothing in virtual time, so a thread that sleeps
+		// between its calls is almost never in the middle of one when the receiver thread wakes up
+		if (!pl->pauses.empty()) { uint8_t d = pl->pauses[k++ % pl->pauses.size()]; if (d >= 128) vf_usleep((unsigned) (1 + d % 40) * 300); }
 	}
 	__atomic_fetch_add(pl->done, 1, __ATOMIC_RELAXED);
 	return nullptr;
@@ -245,7 +276,7 @@ void prop(DP &dp, const ref::Bytes &sched, Ctx &ctx) {
 	ref::Bytes traffic_bytes = dp.bytes(std::min<size_t>(dp.left() / (free_run ? 2 : 3), 400));
 	DP tdp(traffic_bytes);
 	unsigned nt = (unsigned) dp.range(2, free_run ? 12 : 4);
-	bool watch_case = dp.chance(110);          // watch: state changes only through the main thread's messages
+	bool watch_case = dp.chance(130);          // watch: state changes only through the main thread's messages
 	int done = 0;
 	std::vector<std::unique_ptr<Plan>> plans;
 	std::vector<Watch> pool;
@@ -305,8 +336,31 @@ void prop(DP &dp, const ref::Bytes &sched, Ctx &ctx) {
 	struct Boundary { uint64_t from, to; std::map<std::string, std::string> lines; };
 	std::vector<Boundary> hist;
 	hist.push_back({0, UINT64_MAX, M_.lines()});
+	std::vector<std::unique_ptr<Prober>> probers;
+	if (watch_case && !free_run && !pool.empty() && dp.chance(220)) {
+		static const struct { const void *lock; const char *name; } LK[8] = {
+		    {&trackstate_trains_mutex, "trackstate_trains_mutex"}, {&trackstate_segments_mutex, "trackstate_segments_mutex"},
+		    {&trackstate_accessories_mutex, "trackstate_accessories_mutex"}, {&trackstate_accessories_mutex, "trackstate_accessories_mutex"},
+		    {&trackstate_peripherals_mutex, "trackstate_peripherals_mutex"}, {&trackstate_reversers_mutex, "trackstate_reversers_mutex"},
+		    {&trackstate_boosters_mutex, "trackstate_boosters_mutex"}, {&trackstate_track_outputs_mutex, "trackstate_track_outputs_mutex"}};
+		unsigned np = (unsigned) dp.range(1, 2);
+		for (unsigned i = 0; i < np; i++) {
+			int kind = pool[dp.pick((unsigned) pool.size())].kind;
+			bool dup = false;
+			for (auto &q : probers) if (q->lock == LK[kind].lock) dup = true;
+			if (dup) continue;
+			std::unique_ptr<Prober> pr(new Prober);
+			pr->lock = LK[kind].lock;
+			pr->lock_name = LK[kind].name;
+			for (auto &w : pool) if (LK[w.kind].lock == pr->lock) pr->targets.push_back(w);
+			pr->picks = dp.bytes((size_t) dp.range(1, 8));
+			ctx.desc << " prober at every release of " << pr->lock_name << " (" << pr->targets.size() << " entities)\n";
+			probers.push_back(std::move(pr));
+		}
+	}
 	contracts::enable(true);
-	std::vector<pthread_t> th(nt);
+	std::vector<pthread_t> th(nt), pth(probers.size());
+	for (size_t i = 0; i < probers.size(); i++) vf_pthread_create(&pth[i], nullptr, prober_main, probers[i].get());
 	for (unsigned t = 0; t < nt; t++) vf_pthread_create(&th[t], nullptr, thread_main, plans[t].get());
 	unsigned injected = 0;
 	int guard = 0;
@@ -334,17 +388,23 @@ void prop(DP &dp, const ref::Bytes &sched, Ctx &ctx) {
 	}
 	if (__atomic_load_n(&done, __ATOMIC_RELAXED) < (int) nt) ctx.fail("HANG: application threads did not finish");
 	for (unsigned t = 0; t < nt; t++) vf_pthread_join(th[t], nullptr);
-	contracts::enable(false);
 	n.s.settle();
+	vf_cancel_release_waits();
+	for (size_t i = 0; i < probers.size(); i++) vf_pthread_join(pth[i], nullptr);
+	contracts::enable(false);
 	for (auto &pl : plans) if (!pl->violation.empty()) ctx.fail(pl->violation);
 	if (contracts::violations() > 0) ctx.fail(std::string("LOCK-CONTRACT: ") + contracts::violation(0) + (contracts::violations() > 1 ? " (and " + std::to_string(contracts::violations() - 1) + " more)" : ""));
-	unsigned long nobs = 0;
+	unsigned long nobs = 0, nprobes = 0;
 	if (watch_case) {
 		// quiescent: the library agrees with the reference at the end
 		std::string df = M_.diff();
 		if (!df.empty()) ctx.fail("STATE: after the concurrent phase: " + df);
-		for (auto &pl : plans)
-			for (auto &ob : pl->obs) {
+		std::vector<const Obs *> all_obs;
+		for (auto &pl : plans) for (auto &ob : pl->obs) all_obs.push_back(&ob);
+		for (auto &pr : probers) for (auto &ob : pr->obs) { all_obs.push_back(&ob); nprobes++; }
+		for (const Obs *obp : all_obs) {
+			{
+				const Obs &ob = *obp;
 				nobs++;
 				bool ok = false;
 				std::string candidates;
@@ -357,6 +417,7 @@ void prop(DP &dp, const ref::Bytes &sched, Ctx &ctx) {
 				}
 				if (!ok) ctx.fail("TORN/STALE: a concurrent getter returned '" + ob.line + "' in window [" + std::to_string(ob.ts) + "," + std::to_string(ob.te) + "] us, but the entity's values at the message boundaries inside that window were:" + candidates);
 			}
+		}
 	}
 	n.s.stop();
 	std::string an = lifecycle_anomalies(true);
@@ -369,6 +430,8 @@ void prop(DP &dp, const ref::Bytes &sched, Ctx &ctx) {
 	ctx.count("api-calls", total_calls);
 	ctx.count("uplink-messages-during-calls", injected);
 	ctx.count("watched-results", (long) nobs);
+	ctx.count("results-of-probers-at-release-points", (long) nprobes);
+	if (!probers.empty()) ctx.tag("watch-case-with-probers");
 	ctx.count("preemptions", vf_preemptions_taken());
 	ctx.nontrivial = nt >= 2 && injected >= 1 && (!watch_case || nobs >= 1);
 	ctx.hash_src = ctx.desc.str() + hex(sched);
